@@ -30,7 +30,8 @@ var lits = []string{"0", "1", "42", "0x1F", "1_000", "1.5", "1e3", "2i", "'a'", 
 var units = []string{"1m", "2.5s", "3ms", "5h", "1µs", "7d", "10y", "3kg"}
 var strex = []string{`"a${x}b"`, `"${x}"`, `"${a+b}, ${f(y)}"`, `"$$"`, `"a$$b${x}"`, `"file:${args[0]}?${q}"`, `"${x.y}$$"`, `"${[1, 2]}"`, `"x=${m[k]}"`}
 var types = []string{"int", "string", "bool", "float64", "error", "any", "T", "*T", "[]int", "[]string", "map[string]int", "chan int", "<-chan T", "func(int) string",
-	"pkg.T", "[3]int", "struct{ a int }", "interface{ M() }", "List[int]", "Pair[int, string]", "[]*pkg.T", "map[string][]T"}
+	"pkg.T", "[3]int", "struct{ a int }", "interface{ M() }", "List[int]", "Pair[int, string]", "[]*pkg.T", "map[string][]T",
+	"chan<- int", "<-chan <-chan T", "<-chan chan int", "<-chan chan<- T", "chan<- <-chan int", "chan (<-chan T)", "<-chan <-chan <-chan int", "chan<- chan<- T", "<-chan []chan T", "<-chan func(<-chan int) chan<- T"}
 var binOps = []string{"+", "-", "*", "/", "%", "&", "|", "^", "<<", ">>", "&^", "&&", "||", "==", "!=", "<", "<=", ">", ">=", "->", "<>"}
 
 func (g *gen) ident() string { return g.of(idents...) }
@@ -166,7 +167,10 @@ func (g *gen) expr(d int) string {
 			return g.ident()
 		}
 	}
-	switch g.pick(34) {
+	switch g.pick(36) {
+	case 34, 35: // a type in expression context
+		t := g.of(types...)
+		return g.of("make("+t+")", "make("+t+", "+g.expr(d-1)+")", "new("+t+")", "("+t+")("+g.expr(d-1)+")", "f("+t+", "+g.expr(d-1)+")", "[]"+t+"{}")
 	case 0:
 		return g.of(lits...)
 	case 1:
